@@ -3,6 +3,7 @@
 package main
 
 import (
+	"context"
 	"fmt"
 
 	"verif/harness/lib"
@@ -44,10 +45,10 @@ func genFilter(r *lib.RNG) Filt {
 	switch r.Intn(5) {
 	case 0, 1:
 	case 2:
-		f.Addrs = []int{r.Intn(len(addrU))}
+		f.Addrs = []int{r.Intn(nAddrCommon)}
 	default:
 		for i := 1 + r.Intn(3); i > 0; i-- {
-			f.Addrs = append(f.Addrs, r.Intn(len(addrU)))
+			f.Addrs = append(f.Addrs, r.Intn(nAddrCommon))
 		}
 	}
 	npos := 0
@@ -64,12 +65,45 @@ func genFilter(r *lib.RNG) Filt {
 		alts := []int{}
 		if !r.Chance(2, 5) {
 			for i := 1 + r.Intn(3); i > 0; i-- {
-				alts = append(alts, r.Intn(len(keyU)))
+				alts = append(alts, r.Intn(nKeyCommon))
 			}
 		}
 		f.Keys = append(f.Keys, alts)
 	}
+	if r.Chance(1, 7) {
+		// many alternatives (most of them absent from every block): a long address list and / or one key
+		// position with up to 16 alternatives, duplicates included
+		if r.Bool() {
+			f.Addrs = nil
+			for i := 4 + r.Intn(9); i > 0; i-- {
+				f.Addrs = append(f.Addrs, r.Intn(len(addrU)))
+			}
+		}
+		if len(f.Keys) == 0 || r.Bool() {
+			alts := []int{}
+			for i := 6 + r.Intn(11); i > 0; i-- {
+				alts = append(alts, r.Intn(len(keyU)))
+			}
+			if len(f.Keys) == 0 {
+				f.Keys = [][]int{alts}
+			} else {
+				f.Keys[r.Intn(len(f.Keys))] = alts
+			}
+		}
+	}
 	return f
+}
+
+func (f Filt) manyAlternatives() bool {
+	if len(f.Addrs) >= 4 {
+		return true
+	}
+	for _, k := range f.Keys {
+		if len(k) >= 6 {
+			return true
+		}
+	}
+	return false
 }
 
 func (f Filt) broad() bool {
@@ -266,7 +300,7 @@ func buildBases(r *lib.RNG, res *lib.Result) *Base {
 	src := newSource(rb, rb.Bool())
 	b := &Base{}
 	for i := range b.W {
-		b.W[i] = &World{Src: src, Node: newNode(i == 1, false), Res: res, Name: "base", quiet: true}
+		b.W[i] = &World{Src: src, Node: newNode(i == 1, false), Res: res, Name: "base", quiet: true, L1: -1}
 	}
 	// layout: events in a few dozen blocks, the rest empty
 	type seg struct {
@@ -642,6 +676,21 @@ func probeVariant(bases *Base, r *lib.RNG) Variant {
 			panic(fmt.Sprintf("probe failed: %v", tmp.Fatal))
 		}
 	}
+	// does starknet_subscribeEvents accept a node without an L1 head?
+	{
+		tmp := lib.NewResult("probe")
+		w := newWorld("probe:sub-l1", r.Fork(397), tmp, nil, Variant{}, false, false)
+		w.do(st(1, evA))
+		ss := newSubSync()
+		api := w.subAPIs(ss)[0]
+		ctx, cancel := context.WithCancel(context.Background())
+		h, _ := w.trySubscribe(ctx, api, filtA, "latest", false)
+		v.SubL1Tolerant = h != nil
+		cancel()
+		if tmp.Fatal != nil {
+			panic(fmt.Sprintf("probe failed: %v", tmp.Fatal))
+		}
+	}
 	return v
 }
 
@@ -672,6 +721,9 @@ func runRandom(bases *Base, near, isFar bool, r *lib.RNG, id uint64, res *lib.Re
 		}
 	} else {
 		w.do(st(1+r.Intn(6), nil))
+	}
+	if r.Chance(1, 2) {
+		w.do(Op{Kind: "l1", N: r.Intn(len(w.Chain))})
 	}
 	pruning := prunerInit && r.Chance(1, 2)
 	prunes := 0
@@ -727,6 +779,24 @@ func runRandom(bases *Base, near, isFar bool, r *lib.RNG, id uint64, res *lib.Re
 			if w.Floor > 0 && r.Chance(2, 3) && q.FromTag == "" && q.From < w.Floor {
 				q.From = w.Floor + r.Intn(3) // most queries of a pruning node stay in the retained range
 			}
+			if q.Rpc && r.Chance(1, 8) {
+				// block ids the handler resolves itself: the L1 head (also when none is stored), hashes of
+				// blocks above the head or of pruned blocks
+				switch r.Intn(4) {
+				case 0:
+					if q.Api != "v8" {
+						q.FromTag, q.L1 = "l1_accepted", max(w.L1, 0)
+					}
+				case 1:
+					if q.Api != "v8" {
+						q.ToTag, q.L1 = "l1_accepted", max(w.L1, 0)
+					}
+				case 2:
+					q.ToTag, q.To = "hash", h+r.Intn(3)
+				default:
+					q.FromTag, q.From = "hash", r.Intn(h+2)
+				}
+			}
 			op = Op{Kind: "query", Q: &q}
 		case x < 88:
 			w.do(Op{Kind: "snap"})
@@ -766,10 +836,16 @@ func runRandom(bases *Base, near, isFar bool, r *lib.RNG, id uint64, res *lib.Re
 				res.Hit("query:scan-limit")
 			}
 			res.Hit(fmt.Sprintf("query:chunk=%d", q.Chunk))
+			if q.F.manyAlternatives() {
+				res.Hit("query:filter-with-many-alternatives")
+			}
 		}
 	}
 	w.checkTokenParsing(r)
 	w.checkRequestValidation()
+	if id%4 == 0 {
+		w.checkRequestLimits()
+	}
 	if pruning {
 		res.Hit("history:pruning-node")
 	}
